@@ -11,7 +11,7 @@ import PdModel.Proto
                                         → `(<b:payload>:<ok|Exc> | q=<answer>)… | <links> | <log>`
 * `header <u:project> <u:version>`     → `b:<hex>` (the bytes of `_generateHeader`)
 * `maxage <u:s>`                        → `ok <u:unit> <amount>` | `InvalidMaxAge`
-* `preparecache <clear> <enable> <rmtreeOk> <u:maxAge>` (0/1 flags) → `plain` | `caching <seconds>` | `OSError` | `InvalidMaxAge`
+* `preparecache <clear 0|1> <enable 0|1> <R|M|E = rmtree removed/missing/other error> <u:maxAge>` → `plain` | `caching <seconds>` | `OSError` | `InvalidMaxAge`
 * `fetch (F <u:url> <C:b:hex|E|B> <Z|D|T:u:text>)*` → `<ok|BaseException> | <links> | <log>`
 * `xref <N|u:objForFullName> <u:expandName> <N|u:context result> <u:identifier> <k=b=l>*` → `internal u:… | external u:… | unresolved`
 * `linkto <N|u:resolveName> <u:expandName> <u:identifier> <k=b=l>*`  → same
@@ -222,9 +222,10 @@ def handle (args : List String) : String :=
       | .ok (u, n) => "ok " ++ Proto.encodeStr u ++ " " ++ toString n
       | .raised e => showErr e
   | ["preparecache", c, e, r, a] =>
-    match parseBool c, parseBool e, parseBool r, Proto.decodeStr a with
-    | some clear, some enable, some rmOk, some ma =>
-      match prepareCache pyInt clear enable rmOk ma with
+    match parseBool c, parseBool e, (match r with | "R" => some RmResult.removed | "M" => some .missing | "E" => some .otherError | _ => none),
+        Proto.decodeStr a with
+    | some clear, some enable, some rm, some ma =>
+      match prepareCache pyInt clear enable rm ma with
       | .ok .plain => "plain"
       | .ok (.caching u n) => "caching " ++ toString (n * unitSeconds u)
       | .raised err => showErr err
